@@ -244,6 +244,10 @@ def run(rep):
     from harness.props import _refsyntax
 
     _refsyntax.part(rep, PROP)
+    # references on a long-lived Survey object changed through the builder API between renders (SurveyObject.tla: AddRef)
+    from harness.props import c02
+
+    c02.part_histories(rep, PROP)
 
 
 def replay(rep, case):
@@ -252,6 +256,10 @@ def replay(rep, case):
         from harness.props import _refsyntax
 
         return _refsyntax.replay(rep, PROP, c)
+    if c.get("history") is not None:
+        from harness.props import c02
+
+        return c02.replay_history(rep, PROP, c)
     outs = corpus.run_forms([{"wb": c["wb"], "fmt": "dict", "refs": True, "tag": c.get("tag"), "shapes": ["replay"]}])
     sub, acc, rejected = _rp.validate(rep, PROP, outs, "replay")
     for o, l, clause in rejected:
